@@ -21,17 +21,20 @@ def fake_find_best_fit(data, include_zero=False, component_index=0, n=None, m=No
     return PervaporationFunction(n=1, m=1, alpha=base * math.exp(1500.0 / data[0].t), a=[0.4 - 0.6 * component_index], b=[1500.0, 90.0])
 
 
-def curve_set(m, rng, ncurves, basis='weight'):
+def curve_set(m, rng, ncurves, basis='weight', same_T=False):
     curves = []
     temps = [313.15, 333.15, 353.15][:ncurves] if ncurves > 1 else [rng.choice([313.15, 333.15])]
-    for T in temps:
+    if same_T:                              # several curves measured at one temperature (still a multi-curve set)
+        temps = [temps[0]] * len(temps)
+    for ci, T in enumerate(temps):
         xs = [0.1, 0.3, 0.5, 0.7, 0.9]
         comps = [pv.Composition(p=x, type='weight') for x in xs]
         if basis == 'molar':
             comps = [c.to_molar(m) for c in comps]
         elif basis == 'mixed':          # every point carries its own basis (weight, molar, weight, ...)
             comps = [c if k % 2 == 0 else c.to_molar(m) for k, c in enumerate(comps)]
-        perms = [(pv.Permeance(0.02 * math.exp(0.8 * x) * math.exp(-2000 * (1 / T - 1 / 333.15))),
+        sc = 1.0 + (0.07 * ci if same_T else 0.0)
+        perms = [(pv.Permeance(sc * 0.02 * math.exp(0.8 * x) * math.exp(-2000 * (1 / T - 1 / 333.15))),
                   pv.Permeance(0.0004 * math.exp(-0.5 * x) * math.exp(-4000 * (1 / T - 1 / 333.15)))) for x in xs]
         curves.append(DiffusionCurve(mixture=m, membrane_name='oracle_membrane', feed_temperature=T,
                                      feed_compositions=comps, permeances=perms))
@@ -57,10 +60,15 @@ def random_config(rng, kinds=KINDS, coarse=False):
         else:
             prog = TemperatureProgram(coefficients=[Ts / math.log(50.0), 50.0, rng.uniform(0, 2.0)], type=t)
     x0 = rng.uniform(0.05, 0.95)
+    if prog is None:
+        T0 = gens.maybe_int(rng, T0, 0.1)
+    Tp, pp = gens.maybe_int(rng, Tp, 0.1), gens.maybe_int(rng, pp, 0.2)
     basis = rng.choice(['weight', 'weight', 'molar'])
     A = gens.loguniform(rng, 1e-3, 5.0)
     m0 = gens.loguniform(rng, 0.1, 100.0)
     n = rng.choice([1, 2, 3, 5, 8, 13, 30])
+    if m0 >= 1 and A >= 0.5:
+        A, m0 = gens.maybe_int(rng, A, 0.2), gens.maybe_int(rng, m0, 0.2)
     P1, P2 = gens.loguniform(rng, 1e-3, 0.2), gens.loguniform(rng, 1e-5, 0.02)
     ct = rng.choice(['NRTL', 'UNIQUAC']) if m.uniquac_params is not None else 'NRTL'
     # step length: remove roughly `frac` of the feed over the whole run (fine) or per step (coarse)
@@ -69,14 +77,22 @@ def random_config(rng, kinds=KINDS, coarse=False):
     dt = frac * m0 / (flux_guess * A)
     Texp = T0 if rng.random() < 0.5 else T0 + rng.uniform(-20, 20)
     units = rng.choice(['kg/(m2*h*kPa)', 'kg/(m2*h*kPa)', 'SI', 'GPU'])
+    # a measured temperature series (not Arrhenius-consistent); half of the time the run starts just next to the midpoint
+    # between two experiments, so that a drifting feed temperature changes which experiment is the nearest one
+    extra = []
+    if rng.random() < 0.35:
+        for _ in range(rng.choice([1, 1, 2])):
+            extra.append((rng.choice([-1, 1]) * rng.uniform(2, 25), math.exp(rng.uniform(-0.7, 0.7)), math.exp(rng.uniform(-0.7, 0.7))))
+        if rng.random() < 0.5:
+            Texp = T0 - extra[0][0] / 2 + rng.choice([-1, 1]) * gens.loguniform(rng, 0.02, 1.5)
     ip = None
     if kind.startswith('nonideal') and rng.random() < 0.5:
         ipu = rng.choice(['kg/(m2*h*kPa)', 'SI', 'GPU'])
         ip = (pv.Permeance(P1).convert(ipu, m.first_component), pv.Permeance(P2).convert(ipu, m.second_component))
     ncurves = rng.choice([1, 1, 2, 3]) if kind.startswith('nonideal') else 0
     return dict(m=m, kind=kind, T0=T0, Tp=Tp, pp=pp, prog=prog, x0=x0, basis=basis, A=A, m0=m0, n=n, dt=dt,
-                P1=P1, P2=P2, ct=ct, prec=5e-5, Texp=Texp, units=units, ip=ip, ncurves=ncurves, mode=mode,
-                Ea1=rng.uniform(-20000, 60000), Ea2=rng.uniform(-20000, 60000), cbasis=rng.choice(['weight', 'molar', 'mixed']))
+                P1=P1, P2=P2, ct=ct, prec=5e-5, Texp=Texp, units=units, ip=ip, ncurves=ncurves, mode=mode, sameT=(ncurves > 1 and rng.random() < 0.3),
+                Ea1=rng.uniform(-20000, 60000), Ea2=rng.uniform(-20000, 60000), extra=extra, cbasis=rng.choice(['weight', 'molar', 'mixed']))
 
 
 def build(cfg, rng=None):
@@ -88,9 +104,9 @@ def build(cfg, rng=None):
     elif cfg['units'] == 'GPU':
         P1 = pv.Permeance(P1).convert('GPU', m.first_component).value
         P2 = pv.Permeance(P2).convert('GPU', m.second_component).value
-    mem = pvtools.simple_membrane(m, P1, P2, T=cfg['Texp'], Ea1=cfg['Ea1'], Ea2=cfg['Ea2'], units=cfg['units'])
+    mem = pvtools.simple_membrane(m, P1, P2, T=cfg['Texp'], Ea1=cfg['Ea1'], Ea2=cfg['Ea2'], units=gens.fresh_str(cfg['units']), extra=cfg.get('extra', ()))
     cd = Conditions(membrane_area=cfg['A'], initial_feed_temperature=cfg['T0'], initial_feed_amount=cfg['m0'],
-                    initial_feed_composition=pv.Composition(p=cfg['x0'], type=cfg['basis']),
+                    initial_feed_composition=pv.Composition(p=cfg['x0'], type=gens.fresh_str(cfg['basis'])),      # equal, not identical, to the library's constant
                     permeate_temperature=cfg['Tp'], permeate_pressure=cfg['pp'], temperature_program=cfg['prog'])
     return mem, cd
 
@@ -111,7 +127,7 @@ def run(cfg, pvo=None, fake_fit=True, A=None, m0=None, dt=None):
     if k == 'ideal_noniso':
         return pvo.ideal_non_isothermal_process(conditions=cd, number_of_steps=cfg['n'], delta_hours=dt,
                                                 precision=cfg['prec'], calculation_type=cfg['ct']), pvo, cd
-    cs = curve_set(cfg['m'], random.Random(1), cfg['ncurves'], cfg['cbasis'])
+    cs = curve_set(cfg['m'], random.Random(1), cfg['ncurves'], cfg['cbasis'], cfg.get('sameT', False))
     old = PVM.find_best_fit
     if fake_fit:
         PVM.find_best_fit = fake_find_best_fit
